@@ -242,3 +242,80 @@ theorem applyOps_undo (ops : List (Option (List String × Cfg))) (d : Dict) (rec
         simp [undoAll, hu]
 
 end Dask.Config
+
+/-! ### `altName` is an involution on names that do not mix `-` and `_` -/
+namespace Dask.Config
+open Dask.PyStr
+
+theorem replaceCharL_not_mem (a b : Char) (l : List Char) (h : a ∉ l) : replaceCharL a b l = l := by
+  induction l with
+  | nil => rfl
+  | cons c r ih =>
+    simp only [List.mem_cons, not_or] at h
+    have hc : ¬ c = a := fun e => h.1 e.symm
+    simp [replaceCharL, hc, ih h.2]
+
+theorem replaceCharL_removes (a b : Char) (hab : a ≠ b) (l : List Char) : a ∉ replaceCharL a b l := by
+  induction l with
+  | nil => simp [replaceCharL]
+  | cons c r ih =>
+    simp only [replaceCharL, List.mem_cons, not_or]
+    refine ⟨?_, ih⟩
+    by_cases hc : c = a
+    · simp [hc, hab]
+    · simp only [hc, if_false]; exact fun e => hc e.symm
+
+theorem replaceCharL_adds (a b : Char) (l : List Char) (h : a ∈ l) : b ∈ replaceCharL a b l := by
+  induction l with
+  | nil => cases h
+  | cons c r ih =>
+    simp only [List.mem_cons] at h
+    simp only [replaceCharL, List.mem_cons]
+    by_cases hc : c = a
+    · simp [hc]
+    · rcases h with h | h
+      · exact absurd h.symm hc
+      · exact Or.inr (ih h)
+
+theorem replaceCharL_inv (a b : Char) (l : List Char) (hb : b ∉ l) : replaceCharL b a (replaceCharL a b l) = l := by
+  induction l with
+  | nil => rfl
+  | cons c r ih =>
+    simp only [List.mem_cons, not_or] at hb
+    have hcb : ¬ c = b := fun e => hb.1 e.symm
+    by_cases hc : c = a
+    · simp [replaceCharL, hc, ih hb.2]
+    · simp [replaceCharL, hc, hcb, ih hb.2]
+
+/-- For a name that is all-hyphen or all-underscore (or has neither), the alternative spelling of the
+alternative spelling is the name itself. (For a mixed name such as `a_b-c` it is not: `a-b-c` ↦ `a_b_c`.) -/
+theorem altName_invol (k : String) (h : ¬ (hasChar '_' k = true ∧ hasChar '-' k = true)) :
+    altName (altName k) = k := by
+  by_cases hu : hasChar '_' k = true
+  · have hd : '-' ∉ k.toList := by
+      intro hm
+      exact h ⟨hu, by simpa [hasChar] using hm⟩
+    have hA : altName k = replaceChar '_' '-' k := by simp [altName, hu]
+    have h1 : hasChar '_' (replaceChar '_' '-' k) = false := by
+      have := replaceCharL_removes '_' '-' (by decide) k.toList
+      simpa [hasChar, replaceChar] using this
+    have hB : altName (replaceChar '_' '-' k) = replaceChar '-' '_' (replaceChar '_' '-' k) := by
+      simp [altName, h1]
+    rw [hA, hB]
+    simp only [replaceChar, String.toList_ofList, replaceCharL_inv '_' '-' k.toList hd, String.ofList_toList]
+  · have hu' : hasChar '_' k = false := by simpa using hu
+    have hA : altName k = replaceChar '-' '_' k := by simp [altName, hu']
+    by_cases hd : '-' ∈ k.toList
+    · have h1 : hasChar '_' (replaceChar '-' '_' k) = true := by
+        have := replaceCharL_adds '-' '_' k.toList hd
+        simpa [hasChar, replaceChar] using this
+      have hnu : '_' ∉ k.toList := by simpa [hasChar] using hu
+      have hB : altName (replaceChar '-' '_' k) = replaceChar '_' '-' (replaceChar '-' '_' k) := by
+        simp [altName, h1]
+      rw [hA, hB]
+      simp only [replaceChar, String.toList_ofList, replaceCharL_inv '-' '_' k.toList hnu, String.ofList_toList]
+    · have e : replaceChar '-' '_' k = k := by
+        simp [replaceChar, replaceCharL_not_mem '-' '_' k.toList hd]
+      rw [hA, e, hA, e]
+
+end Dask.Config
